@@ -493,7 +493,11 @@ func RunProperty(cfg RunConfig) int {
 				}
 			}
 			unowned := v.Clause == "free_running" || v.Clause == "race_report"
-			for try := 0; unowned && try < 4 && !(code == 1 && strings.Contains(out, "REPRODUCED")); try++ {
+			// map_order is decided by repetition (Go's map iteration order cannot be seeded): a
+			// replay may need another attempt too, but unlike the unowned clauses it is only
+			// reported once it has shown again
+			retry := unowned || v.Clause == "map_order"
+			for try := 0; retry && try < 4 && !(code == 1 && strings.Contains(out, "REPRODUCED")); try++ {
 				// the one clause whose interleaving the simulator does not own (C13 iv):
 				// a true positive may need several attempts to show again
 				out, code = runSelf(cfg.Self, 10*time.Minute, "replay", replayPath)
